@@ -739,11 +739,15 @@ func TestCheck(t *testing.T) {
 	rep := mon.NewReporter(cfg, "exploration",
 		"case = PRNG tool set (1-5 tools: invokable-only/streamable-only/both; hand-written or built with utils.NewTool/InferTool/InferOptionableTool/NewStreamTool/InferStreamTool/InferOptionableStreamTool, custom (un)marshal) + list of 1-8 calls (repeated tools, identical calls, unknown names, duplicate/empty ids); "+
 			"each case is run through ToolsNode.Invoke/Stream directly and inside graphs/chains under gate-forced completion orders (all N! for N<=4), every non-empty subset of failing calls (N<=4), panics at call 0 and >=1, with/without unknown-tool handler; "+
-			"non-trivial = N>=2 calls, at least one run completed in an order different from call order, and the answers of all five modes were compared with the reference",
+			"22% of these cases have tools whose total output is empty (invokable form returning \"\", streams of \"\" chunks, streams without any chunk, handler answering \"\"), alone and mixed with ordinary calls; "+
+			"14% of the cases are sequences of 2-6 messages to one tools node whose utils-built tools (struct / pointer / map argument types with optional fields, nested structs, maps, slices) are called repeatedly with different subsets of fields, every message in every mode, expected content from the arguments decoded into a fresh value; "+
+			"non-trivial = N>=2 calls, at least one run completed in an order different from call order, and the answers of all five modes were compared with the reference (sequences: a call omits what an earlier call of the same tool set, all runs compared)",
 		[]string{
 			"tool bodies are pure functions of (tool, arguments, tool option); the reference maps them over the call list without eino",
 			"completion order = order in which the gated tool bodies return (the controller waits for a body to return before opening the next gate); the bookkeeping eino does after a body returned is not ordered by the harness",
 			"JSON produced by the utils tools is compared with a hand-rendered string (alphanumeric payloads only)",
+			"typed-arguments sequences: encoding/json decoding into a fresh value is the reference for what sonic decodes (generated documents: exact key names, strings, small integers, booleans, nested objects/arrays)",
+			"an empty tool output is an output like any other: N messages, the i-th with the i-th id and content \"\"",
 			"a panic of the task the tools node runs inline on the caller's goroutine reaching the caller of a DIRECT ToolsNode.Invoke/Stream is counted, not flagged: the statement speaks of the enclosing run, which is checked with graphs/chains",
 			"hangs are decided by the goroutine-state quiescence monitor, never by a deadline",
 		}, 50)
